@@ -262,3 +262,47 @@ def replay_file(ctx, path, invariants, what):
     for v in ctx.violations:
         print(f"VIOLATION property={ctx.pid} replay={v['replay']}\n  what: {v['what']}")
     return 1
+
+
+def apalache_inductive(ctx, timeout=300):
+    """Optional extra (DESIGN.md 3.1): discharge the inductive invariant of spec/RunCounters.tla with
+    Apalache, lifting two C05 clauses from TLC's bounds to all k >= 1 and all run lengths.  Three
+    obligations + one canary (a mutated Update must break the inductive step).  Failures of the
+    tool itself are recorded, never turned into a verdict; a refuted obligation is a violation."""
+    import shutil
+    import subprocess
+    import time
+
+    if shutil.which("apalache-mc") is None:
+        ctx.cov["apalache"] = "apalache-mc not available"
+        return
+    work = ctx.tmp / "apalache"
+    work.mkdir(exist_ok=True)
+    src = (core.SPEC / "RunCounters.tla").read_text()
+    (work / "RunCounters.tla").write_text(src)
+    (work / "RunCountersBad.tla").write_text(
+        src.replace("applied' = applied + 1", "applied' = applied + 2").replace("MODULE RunCounters", "MODULE RunCountersBad"))
+    obligations = [("Init => IndInv", "RunCounters.tla", ["--init=Init", "--inv=IndInv", "--length=0"], True),
+                   ("IndInv /\\ Next => IndInv'", "RunCounters.tla", ["--init=IndInit", "--inv=IndInv", "--length=1"], True),
+                   ("IndInv => C05 clauses", "RunCounters.tla", ["--init=IndInit", "--inv=Props", "--length=0"], True),
+                   ("canary: mutated Update breaks the inductive step", "RunCountersBad.tla", ["--init=IndInit", "--inv=IndInv", "--length=1"], False)]
+    res = []
+    for name, mod, args, want_ok in obligations:
+        t0 = time.time()
+        try:
+            p = subprocess.run(["apalache-mc", "check", "--cinit=ConstInit", *args, f"--out-dir={work}/out", mod],
+                               cwd=work, capture_output=True, text=True, timeout=timeout)
+            out = p.stdout + p.stderr
+        except subprocess.TimeoutExpired:
+            res.append({"obligation": name, "result": "timeout"})
+            continue
+        ok = "EXITCODE: OK" in out
+        refuted = "EXITCODE: ERROR (12)" in out
+        res.append({"obligation": name, "result": "ok" if ok else ("refuted" if refuted else "tool-error"),
+                    "wall_s": round(time.time() - t0, 1)})
+        if want_ok and refuted:
+            ctx.violation(f"apalache:{name}", f"Apalache refutes '{name}' of RunCounters (all k, all run lengths)",
+                          {"output": out[-3000:]})
+        if not want_ok and ok:
+            raise core.MachineryFailure("Apalache accepted the mutated RunCounters: inductive check is vacuous")
+    ctx.cov["apalache_inductive_invariant"] = res
